@@ -99,7 +99,11 @@ def _run_once(ctx, env_extra, tier=None):
                 l = l.strip()
                 if l:
                     try:
-                        lines.append(json.loads(l))
+                        j = json.loads(l)
+                        if j.get("layer") == "pump":
+                            j.setdefault("plan", "")      # the empty plan is omitted by the encoder
+                            j.setdefault("steps", [])
+                        lines.append(j)
                     except ValueError:
                         pass   # a line cut short by the crash
     return rc, lines, (so + se)[-3000:]
@@ -212,6 +216,8 @@ def steps_of(c):
         o = {"done": "ODone", "blocked": "OBlocked", "closed": "OClosed", "crash": "OCrash"}.get(s["o"])
         if s["o"] == "val":
             o = "OVal " + _z(s.get("v", 0))
+        if s.get("nw"):
+            out.append("(MRacy, ODone)")
         out.append("(%s, %s)" % (m, o))
     if c.get("crashed"):
         nxt = crashed_move(c)
@@ -229,7 +235,7 @@ def crashed_move(c):
     plan = c["plan"]
     sends = sum(1 for s in steps if s["k"] == "send")
     if n < len(plan):
-        k = PLANK[plan[n]]
+        k = PLANK[plan[n].upper()]
         return {"k": k, "x": sends + 1} if k == "send" else {"k": k}
     return {"k": "cancel"} if not any(s["k"] in ("cancel", "close") for s in steps) else {"k": "recv"}
 
@@ -277,9 +283,11 @@ def describe(c):
     tr = []
     for s in c.get("steps", []):
         t = s["k"] + (" %d" % s["x"] if s["k"] == "send" else "") + " -> " + s["o"] + (" %d" % s["v"] if s["o"] == "val" else "")
+        if s.get("nw"):
+            t += "   [no Wait before the next move]"
         tr.append(t)
     d = {"call": "rcv, snd := pipe.New[int](ctx, %d)  (cap(snd)=%d, cap(rcv)=%d), driven under testing/synctest" % (c["cap"], c["cin"], c["ceg"]),
-         "plan": c["plan"] + "  (S send attempt, R receive attempt, C cancel, X close(snd); then: end the stream, receive until closed)",
+         "plan": c["plan"] + "  (S send attempt, R receive attempt, C cancel, X close(snd), lower case = not followed by Wait; then: end the stream, receive until closed)",
          "trace": tr,
          "required": "received = the completed sends, in order, once; sends never block before cancel/close; after cancel or close "
                      "everything sent before it is received, then the receive side closes; no crash"}
